@@ -91,7 +91,10 @@ def reduce_arr(a, dim, keepdim, f, init=None):
     perm = keep + list(dims)
     b = a.transpose(perm)
     kshape = tuple(a.shape[d] for d in keep)
-    b = b.reshape(kshape + (-1,)) if b.size or True else b
+    red = 1
+    for d in dims:
+        red *= a.shape[d]
+    b = b.reshape(kshape + (red,))
     out = np.empty(kshape, dtype=object)
     for idx in np.ndindex(*kshape):
         row = list(b[idx])
